@@ -29,36 +29,63 @@ pub fn variant_module(name: &str, v: &Variant) -> String {
     writeln!(s, "   use prog::vfn;").unwrap();
     match v.kind {
         MacroKind::Ascent | MacroKind::AscentPar => {
+            let generic = v.generic;
+            let items = prep_items(v, &items, name, &mut s);
             writeln!(s, "   ::ascent::{}! {{", mac).unwrap();
             for a in &v.attrs { writeln!(s, "      {}", a).unwrap(); }
-            writeln!(s, "      pub struct P;").unwrap();
+            if generic {
+                if v.flags.iter().any(|f| f == "impl-signature") {
+                    writeln!(s, "      pub struct P<T>;").unwrap();
+                    writeln!(s, "      impl<T: Clone + Eq + ::std::hash::Hash> P<T>;").unwrap();
+                } else {
+                    writeln!(s, "      pub struct P<T: Clone + Eq + ::std::hash::Hash>;").unwrap();
+                }
+            } else { writeln!(s, "      pub struct P;").unwrap(); }
             for it in &items { writeln!(s, "      {}", it).unwrap(); }
             writeln!(s, "   }}").unwrap();
-            writeln!(s, "   pub struct I(P);").unwrap();
-            writeln!(s, "   impl prog::harness::Instance for I {{").unwrap();
-            writeln!(s, "      fn push(&mut self, rel: usize, t: &[i32]) {{ match rel {{").unwrap();
-            for (i, r) in p.rels.iter().enumerate() {
-                if r.ds.is_some() { writeln!(s, "         {} => panic!(\"no input vector for a BYODS relation\"),", i).unwrap(); continue; }
-                writeln!(s, "         {} => {{ self.0.{}.push({}); }}", i, r.name, tuple_expr(r.arity, r.lat.is_some(), par)).unwrap();
+            let pty = if generic { "P<i32>" } else { "P" };
+            let lazy = v.flags.iter().any(|f| f == "init-tls");
+            if lazy {
+                writeln!(s, "   pub struct I {{ inputs: Vec<Vec<Vec<i32>>>, p: Option<{}> }}", pty).unwrap();
+                writeln!(s, "   impl I {{ fn get(&self) -> &{} {{ self.p.as_ref().expect(\"run first\") }} }}", pty).unwrap();
+            } else {
+                writeln!(s, "   pub struct I({});", pty).unwrap();
             }
-            writeln!(s, "         _ => unreachable!() }} }}").unwrap();
-            writeln!(s, "      fn run(&mut self) {{ self.0.run(); }}").unwrap();
-            if v.attrs.iter().any(|a| a.contains("generate_run_timeout")) {
-                writeln!(s, "      fn run_timeout(&mut self, nanos: u64) -> Option<bool> {{ Some(self.0.run_timeout(::std::time::Duration::from_nanos(nanos))) }}").unwrap();
+            writeln!(s, "   impl prog::harness::Instance for I {{").unwrap();
+            if lazy {
+                writeln!(s, "      fn push(&mut self, rel: usize, t: &[i32]) {{ self.inputs[rel].push(t.to_vec()); }}").unwrap();
+                writeln!(s, "      fn run(&mut self) {{ vfn::set_init_inputs(self.inputs.clone()); let mut p = <{}>::default(); p.run(); self.p = Some(p); }}", pty).unwrap();
+            } else {
+                writeln!(s, "      fn push(&mut self, rel: usize, t: &[i32]) {{ match rel {{").unwrap();
+                for (i, r) in p.rels.iter().enumerate() {
+                    if r.ds.is_some() { writeln!(s, "         {} => panic!(\"no input vector for a BYODS relation\"),", i).unwrap(); continue; }
+                    writeln!(s, "         {} => {{ self.0.{}.push({}); }}", i, r.name, tuple_expr(r.arity, r.lat.is_some(), par)).unwrap();
+                }
+                writeln!(s, "         _ => unreachable!() }} }}").unwrap();
+                writeln!(s, "      fn run(&mut self) {{ self.0.run(); }}").unwrap();
+                if v.attrs.iter().any(|a| a.contains("generate_run_timeout")) {
+                    writeln!(s, "      fn run_timeout(&mut self, nanos: u64) -> Option<bool> {{ Some(self.0.run_timeout(::std::time::Duration::from_nanos(nanos))) }}").unwrap();
+                }
             }
             writeln!(s, "      fn dump(&self, rel: usize) -> Vec<Vec<i32>> {{ match rel {{").unwrap();
             for (i, r) in p.rels.iter().enumerate() {
                 if r.ds.is_some() { writeln!(s, "         {} => vec![],", i).unwrap(); continue; }
-                writeln!(s, "         {} => {},", i, dump_expr(&r.name, r.arity, r.lat.is_some(), par)).unwrap();
+                let d = dump_expr(&r.name, r.arity, r.lat.is_some(), par);
+                writeln!(s, "         {} => {},", i, if lazy { d.replace("self.0.", "self.get().") } else { d }).unwrap();
             }
             writeln!(s, "         _ => unreachable!() }} }}").unwrap();
-            writeln!(s, "      fn summary(&self) -> String {{ self.0.scc_times_summary() }}").unwrap();
+            writeln!(s, "      fn summary(&self) -> String {{ {}.scc_times_summary() }}", if lazy { "self.get()" } else { "self.0" }).unwrap();
             writeln!(s, "   }}").unwrap();
-            writeln!(s, "   pub fn make() -> Box<dyn prog::harness::Instance> {{ Box::new(I(P::default())) }}").unwrap();
+            if lazy {
+                writeln!(s, "   pub fn make() -> Box<dyn prog::harness::Instance> {{ Box::new(I {{ inputs: vec![vec![]; {}], p: None }}) }}", p.rels.len()).unwrap();
+            } else {
+                writeln!(s, "   pub fn make() -> Box<dyn prog::harness::Instance> {{ Box::new(I(<{}>::default())) }}", pty).unwrap();
+            }
         }
         MacroKind::AscentRun | MacroKind::AscentRunPar => {
             // inputs are captured from locals; the result struct cannot be named outside the block,
             // so the relations are dumped inside the function
+            let items = prep_items(v, &items, name, &mut s);
             writeln!(s, "   pub struct I {{ inputs: Vec<Vec<Vec<i32>>>, out: Vec<Vec<Vec<i32>>> }}").unwrap();
             writeln!(s, "   struct W<T>(T);").unwrap();
             writeln!(s, "   impl prog::harness::Instance for I {{").unwrap();
@@ -67,15 +94,21 @@ pub fn variant_module(name: &str, v: &Variant) -> String {
             for (i, r) in p.rels.iter().enumerate() {
                 if r.ds.is_some() { continue; }
                 let coll = if par && r.lat.is_some() { format!("self.inputs[{}].iter().map(|t| {}).collect()", i, tuple_expr(r.arity, true, true)) } else { format!("self.inputs[{}].iter().map(|t| {}).collect()", i, tuple_expr(r.arity, r.lat.is_some(), false)) };
-                writeln!(s, "         let init_{} = {};", r.name, coll).unwrap();
+                let mut cols: Vec<String> = vec!["i32".into(); r.arity];
+                if let Some(t) = &r.lat { cols[r.arity - 1] = crate::print::lat_rust_ty(t).into(); }
+                let tup = if r.arity == 1 { format!("({},)", cols[0]) } else { format!("({})", cols.join(", ")) };
+                let vty = if par && r.lat.is_some() { format!("::ascent::boxcar::Vec<::std::sync::RwLock<{}>>", tup) } else if par { format!("::ascent::boxcar::Vec<{}>", tup) } else { format!("Vec<{}>", tup) };
+                writeln!(s, "         let init_{}: {} = {};", r.name, vty, coll).unwrap();
             }
             writeln!(s, "         let res = ::ascent::{}! {{", mac).unwrap();
             for a in &v.attrs { writeln!(s, "            {}", a).unwrap(); }
-            for (i, it) in items.iter().enumerate() {
-                if i < p.rels.len() && p.rels[i].ds.is_none() {
-                    let it = it.trim_end_matches(';');
-                    writeln!(s, "            {} = init_{};", it, p.rels[i].name).unwrap();
-                } else { writeln!(s, "            {}", it).unwrap(); }
+            for it in items.iter() {
+                // declarations get their initialiser from the captured locals
+                let decl = p.rels.iter().find(|r| r.ds.is_none() && (it.starts_with(&format!("relation {}(", r.name)) || it.starts_with(&format!("lattice {}(", r.name))));
+                match decl {
+                    Some(r) if !it.contains(" = ") => writeln!(s, "            {} = init_{};", it.trim_end_matches(';'), r.name).unwrap(),
+                    _ => writeln!(s, "            {}", it).unwrap(),
+                }
             }
             writeln!(s, "         }};").unwrap();
             writeln!(s, "         let w = W(res);").unwrap();
@@ -95,6 +128,44 @@ pub fn variant_module(name: &str, v: &Variant) -> String {
     s
 }
 
+/// applies the packaging transformations to the printed items; may emit an `ascent_source!` block in front
+fn prep_items(v: &Variant, items: &[String], modname: &str, s: &mut String) -> Vec<String> {
+    let p = &v.prog;
+    let mut items: Vec<String> = items.to_vec();
+    if v.generic { for it in items.iter_mut().take(p.rels.len()) { *it = it.replace("i32", "T"); } }
+    if v.flags.iter().any(|f| f == "init-tls") {
+        let par = v.is_par();
+        for (i, r) in p.rels.iter().enumerate() {
+            if r.ds.is_some() { continue; }
+            let conv = format!("vfn::init_inputs({}).iter().map(|t| {}).collect()", i, tuple_expr(r.arity, r.lat.is_some(), par));
+            items[i] = format!("{} = {};", items[i].trim_end_matches(';'), conv);
+        }
+    }
+    if v.flags.iter().any(|f| f == "redecl") {
+        // every relation is declared a first time with another initialiser: the later declaration wins
+        let mut first: Vec<String> = vec![];
+        for (i, r) in p.rels.iter().enumerate() {
+            if r.ds.is_some() { continue; }
+            let decl = items[i].split(" = ").next().unwrap().trim_end_matches(';').to_string();
+            let bogus = if r.lat.is_some() { "Default::default()".to_string() } else { format!("vec![{}]", if r.arity == 1 { "(7,)".to_string() } else { format!("({})", vec!["7"; r.arity].join(", ")) }) };
+            first.push(format!("{} = {};", decl, bogus));
+        }
+        let mut all = first; all.extend(items); items = all;
+    }
+    if let Some((i, j)) = v.include_block {
+        let (i, j) = (i.min(items.len()), j.min(items.len()));
+        let blk = format!("blk_{}", modname);
+        writeln!(s, "   pub mod src {{ ::ascent::ascent_source! {{ {}:", blk).unwrap();
+        for it in &items[i..j] { writeln!(s, "      {}", it).unwrap(); }
+        writeln!(s, "   }} }}").unwrap();
+        let mut out: Vec<String> = items[..i].to_vec();
+        out.push(format!("include_source!(src::{});", blk));
+        out.extend(items[j..].iter().cloned());
+        return out;
+    }
+    items
+}
+
 fn write_if_changed(path: &Path, content: &str) -> bool {
     if let Ok(old) = std::fs::read_to_string(path) { if old == content { return false; } }
     std::fs::create_dir_all(path.parent().unwrap()).unwrap();
@@ -104,6 +175,7 @@ fn write_if_changed(path: &Path, content: &str) -> bool {
 
 /// generates `<out>/<family>_<tier>/` : a workspace of `nshards` binary crates; returns (units, variants)
 pub fn generate(family: &str, tier: &str, units: &[Unit], nshards: usize, out: &Path, engines_dir: &str, byods: bool) -> (usize, usize) {
+    let ascent_features = if family == "packseg" { "\"verif-hooks\", \"segment-codegen\"" } else { "\"verif-hooks\"" };
     let dir = out.join(format!("{}_{}", family, tier));
     let mut members = vec![];
     let mut nvariants = 0;
@@ -127,7 +199,7 @@ pub fn generate(family: &str, tier: &str, units: &[Unit], nshards: usize, out: &
         writeln!(src, "fn main() {{ prog::harness::main({:?}, {:?}, {}, {}, TABLE) }}", family, tier, shard, nshards).unwrap();
         write_if_changed(&dir.join(&cname).join("src/main.rs"), &src);
         let byods_dep = if byods { "ascent-byods-rels = { path = \"/repo/byods/ascent-byods-rels\", features = [\"verif-hooks\"] }\n" } else { "" };
-        let cargo = format!("[package]\nname = \"{}\"\nversion = \"0.1.0\"\nedition = \"2021\"\n\n[dependencies]\nprog = {{ path = \"{}/prog\", features = [\"hooks\"] }}\nascent = {{ path = \"/repo/ascent\", features = [\"verif-hooks\"] }}\n{}", cname, engines_dir, byods_dep);
+        let cargo = format!("[package]\nname = \"{}\"\nversion = \"0.1.0\"\nedition = \"2021\"\n\n[dependencies]\nprog = {{ path = \"{}/prog\", features = [\"hooks\"] }}\nascent = {{ path = \"/repo/ascent\", features = [{}] }}\n{}", cname, engines_dir, ascent_features, byods_dep);
         write_if_changed(&dir.join(&cname).join("Cargo.toml"), &cargo);
     }
     let ws = format!("[workspace]\nmembers = [{}]\nresolver = \"2\"\n\n[profile.release]\nopt-level = 0\ndebug = false\ncodegen-units = 8\nincremental = false\n\n[profile.release.package.prog]\nopt-level = 2\n[profile.release.package.ascent]\nopt-level = 2\n",
